@@ -5,6 +5,7 @@ import asyncio
 from symx import s_and, s_not, s_or
 from symx.core import SymBool, is_sym
 
+from aiokafka.errors import CorruptRecordException
 from aiokafka.consumer.fetcher import READ_COMMITTED, READ_UNCOMMITTED, FetchResult, PartitionRecords
 from aiokafka.consumer.subscription_state import SubscriptionState
 from aiokafka.structs import TopicPartition
@@ -181,10 +182,14 @@ def reference_delivery(log, isolation):
     return out
 
 
-def run_fetch(src, log, isolation, style, max_records=None):
+def run_fetch(src, log, isolation, style, max_records=None, corrupt_batch=None):
     """Drive the real PartitionRecords through the real FetchResult against a real assignment.
-    Returns (delivered offsets, positions observed after each hand-out, final state)."""
-    res = {}
+    Returns (delivered offsets, positions observed after each hand-out, final state).
+    corrupt_batch: index of a batch whose checksum does not verify (check_crcs on): the call that reaches
+    it raises to the application, which received nothing from that call."""
+    res = {"raised": 0}
+    if corrupt_batch is not None:
+        log["batches"][corrupt_batch].validate_crc = lambda: False
 
     def run():
         sub = SubscriptionState()
@@ -193,7 +198,7 @@ def run_fetch(src, log, isolation, style, max_records=None):
         st = assignment.state_value(TP)
         st.seek(log["fetch_offset"])
         pr = PartitionRecords(TP, StubRecords(log["batches"]), list(log["index"]), log["fetch_offset"],
-                              None, None, False, isolation)
+                              None, None, corrupt_batch is not None, isolation)
         fr = FetchResult(TP, assignment=assignment, partition_records=pr, backoff=0)
         delivered, positions = [], []
         guard = 0
@@ -202,11 +207,15 @@ def run_fetch(src, log, isolation, style, max_records=None):
             if guard > 50:
                 res["stuck"] = True
                 break
-            if style == "getone":
-                m = fr.getone()
-                got = [m] if m is not None else []
-            else:
-                got = fr.getall(max_records)
+            try:
+                if style == "getone":
+                    m = fr.getone()
+                    got = [m] if m is not None else []
+                else:
+                    got = fr.getall(max_records)
+            except CorruptRecordException:
+                res["raised"] += 1
+                got = []  # the call raised: whatever it had collected never reached the application
             delivered.extend(r.offset for r in got)
             positions.append((len(delivered), st.position))
         res.update(delivered=delivered, positions=positions, final_position=st.position,
@@ -247,3 +256,27 @@ def check_delivery(src, log, isolation, res, prefix=""):
     c = res["consumed"].get(TP)
     src.check(c is not None and c.offset == res["final_position"],
               prefix + "all_consumed_offsets() differs from the position")
+
+
+def check_committable(src, log, isolation, res, prefix=""):
+    """only the commit clause: what would be committed (position == all_consumed_offsets) never passes a
+    visible record that the application has not received -- also when a call raised half-way"""
+    f = log["fetch_offset"]
+    want = [o for o in reference_delivery(log, isolation) if o >= f]
+    got = res["delivered"]
+    src.check(not res.get("stuck"), prefix + "consumer stalls: the same response is never exhausted")
+    steps = list(res["positions"]) + [(len(got), res["final_position"])]
+    c = res["consumed"].get(TP)
+    if c is not None:
+        steps.append((len(got), c.offset))
+    for k, pos in steps:
+        have = got[:k]
+        for o in want:
+            missing = not any(bool(o == h) for h in have)
+            if missing:
+                ok = pos <= o
+                if src.twin:
+                    ok = pos > o
+                src.check(ok, prefix + "the committable position passes a visible record that was never handed to the application "
+                          "(a call raised half-way through the response)", raised=res.get("raised"))
+                break
